@@ -552,10 +552,12 @@ class Machine(object):
                 tuple(sorted(self.flags.items())) if self.flags else None, tuple(sorted(self.stack.items())), self.fr, tuple(sorted((k, v) for k, v in self.kregs.items() if v is not None)))
 
     def snap(self):
-        return (dict(self.regs), self.flags, dict(self.stack), self.fr, dict(self.kregs))
+        return (dict(self.regs), self.flags, dict(self.stack), self.fr, dict(self.kregs), list(getattr(self, "path", ())) if getattr(self, "record_paths", False) else None)
 
     def restore(self, t):
-        self.regs, self.flags, self.stack, self.fr, self.kregs = t
+        self.regs, self.flags, self.stack, self.fr, self.kregs = t[:5]
+        if t[5] is not None:
+            self.path = list(t[5])
 
     def on_ret(self, i):
         pass
@@ -586,6 +588,10 @@ class Machine(object):
                     ins = f.blocks.get(blk)
                     if ins is None:
                         raise Stop("control left the function at %#x" % blk)
+                    if getattr(self, "record_paths", False):
+                        if not hasattr(self, "path"):
+                            self.path = []
+                        self.path.append(blk)
                     nxt = None
                     done = False
                     for i in ins:
@@ -593,6 +599,10 @@ class Machine(object):
                         if res.steps > self.budget:
                             raise Stop("step budget exhausted")
                         if i.is_ret():
+                            if getattr(self, "record_paths", False):
+                                if not hasattr(res, "paths"):
+                                    res.paths = []
+                                res.paths.append(list(self.path))
                             self.on_ret(i)
                             nret += 1
                             done = True
